@@ -42,8 +42,8 @@ def check(sig, created=True):
         out.append(("fixed axis", f"{name} with shape {shape}"))
     if int(np.prod(shape[1:])) == 0:
         out.append(("empty sample shape", f"{name} with shape {shape}"))
-    if name in DTYPES and d.dtype not in [np.dtype(t) for t in DTYPES[name]]:
-        out.append(("dtype", f"{name} with dtype {d.dtype}"))
+    if name in DTYPES and (d.dtype not in [np.dtype(t) for t in DTYPES[name]] or not d.dtype.isnative):
+        out.append(("dtype", f"{name} with dtype {d.dtype!r}"))
     if not is_freq_scalar(sig.sample_rate, True):
         out.append(("sample_rate", f"{sig.sample_rate!r}"))
     st = sig.start_time
